@@ -168,7 +168,7 @@ class Models:
         self.froms[("__future__", "annotations")] = None
         self.froms[("itertools", "count")] = Builtin("count", lambda I, a, k: _unsup("itertools.count"))
         self.froms[("itertools", "product")] = Builtin("product", lambda I, a, k: ProductV(a[0], a[1]) if len(a) == 2 else _unsup("itertools.product arity"))
-        self.froms[("itertools", "chain")] = Builtin("chain", lambda I, a, k: _unsup("itertools.chain"))
+        self.froms[("itertools", "chain")] = ChainV()
         self.froms[("dataclasses", "dataclass")] = Builtin("dataclass", lambda I, a, k: a[0] if a else Builtin("dataclass()", lambda I2, a2, k2: a2[0]))
         def asdict(I, args, kw):
             obj = args[0]
@@ -662,7 +662,9 @@ class Models:
                     seq = I.iter_seq(a[0])
                     if isinstance(seq, PyList):
                         return FmtV(("join", s, tuple(seq.items)))
-                    return FmtV(("join", s, "<symbolic sequence>"))  # text of a message: content irrelevant
+                    r = FmtV(("join", s, "<symbolic sequence>"))
+                    r.joined_seq = seq  # kept for contracts that state what is joined (not part of structural equality)
+                    return r
                 raise Unsupported(f"str.{name} on symbolic arguments")
             return Builtin("str." + name, f)
         if not hasattr("", name):
@@ -950,6 +952,49 @@ class SuperProxy:
         if name == "__init__":
             return Builtin("object.__init__", lambda I, a, k: None)
         raise Unsupported(f"super().{name}")
+
+
+class ChainV:
+    """itertools.chain: only chain.from_iterable(sequence of fixed-length tuples) is modelled: the flattening is the two-level
+    sequence cell(i, j) = element_i[j] (row-major), no div/mod reasoning."""
+
+    def pvc_getattr(self, I, name):
+        if name != "from_iterable":
+            raise Unsupported(f"itertools.chain.{name}")
+
+        def m(I2, a, k):
+            from .interp import Flat2Seq
+
+            seq = I2.iter_seq(a[0])
+            if isinstance(seq, PyList):
+                out = []
+                for it in seq.items:
+                    inner = I2.iter_seq(it)
+                    if not isinstance(inner, PyList):
+                        raise Unsupported("chain.from_iterable over symbolic inner sequences")
+                    out += inner.items
+                return PyList(out)
+            probe = z3.Int(I2.path.names.fresh("chain_probe"))
+            el = seq.at(probe)
+            if not isinstance(el, tuple):
+                raise Unsupported("chain.from_iterable over non-tuple elements")
+            width = len(el)
+
+            def cell(i, j, seq=seq):
+                e = seq.at(to_int(i))
+                if isinstance(j, int):
+                    return e[j]
+                jz = z3.simplify(to_int(j))
+                if z3.is_int_value(jz):
+                    return e[jz.as_long()]
+                raise Unsupported("symbolic column of a chained tuple sequence")
+
+            return Flat2Seq(seq.len_z(), z3.IntVal(width), cell)
+
+        return Builtin("chain.from_iterable", m)
+
+    def pvc_call(self, I, args, kw):
+        raise Unsupported("itertools.chain(...)")
 
 
 class FmtV:
